@@ -65,7 +65,7 @@ def oracle(case, rec):
     opts = dict(case['opts'])
     thresh = 1e-8
     try:
-        imf = emd.sift.sift(xin.copy(), imf_opts=dict(opts), envelope_opts=dict(eo), extrema_opts=dict(xo))
+        imf = emd.sift.sift(gens.arg(xin), imf_opts=dict(opts), envelope_opts=dict(eo), extrema_opts=dict(xo))
     except emd.support.EMDSiftCovergeError:
         rec.cls('outcome=convergence-error')
         return False
